@@ -229,25 +229,28 @@ func msCur() int { return ms.cur }
 func msActive() bool { return ms.active }
 
 func msHook(o *otto.Otto, kind otto.VerifStepKind, node interface{}) {
-	msYield(int(kind))
-	if msOverrun() {
-		panic(harnessAbort{"task step cap"})
-	}
-	if t := curMTask(); t != nil && (t.abortAt > 0 || len(t.irqAt) > 0) {
+	t := curMTask()
+	if t != nil && (t.abortAt > 0 || len(t.irqAt) > 0) {
 		t.progSteps++
 		for _, k := range t.irqAt {
 			if k == t.progSteps && t.vm.Interrupt != nil {
-				// whoever polls this channel runs the function; with independent
-				// runtimes that can only be the runtime it was sent to
+				// sent before yielding: other runtimes may run (and poll their own
+				// channels) before this runtime reaches its poll. Whoever polls this
+				// channel runs the function; with independent runtimes that can only
+				// be the runtime it was sent to.
 				select {
 				case t.vm.Interrupt <- func() { curMTask().rec("IRQ") }:
 				default:
 				}
 			}
 		}
-		if t.abortAt > 0 && t.progSteps >= t.abortAt {
-			panic(harnessAbort{"abort"})
-		}
+	}
+	msYield(int(kind))
+	if msOverrun() {
+		panic(harnessAbort{"task step cap"})
+	}
+	if t != nil && t.abortAt > 0 && t.progSteps >= t.abortAt {
+		panic(harnessAbort{"abort"})
 	}
 }
 
